@@ -65,6 +65,13 @@ class Session:
 
     def ops(self):
         ops = []
+        if getattr(self, 'closing', False):
+            # the peer has closed its end; the library has not dispatched the disconnection yet
+            # reading the end-of-stream WITHOUT dispatching only differs from dispatching when something is still queued ahead
+            # of it (with an empty queue the library runs its disconnect handling straight away -- the recorded finding's zone)
+            if not self.eof_read and self.queued:
+                ops.append(['rw'])
+            return ops + [['advance', 1500], ['advance', 6000], ['pump']]
         if self.connected:
             for i in range(self.ncalls):
                 if i not in self.calls:
@@ -86,6 +93,7 @@ class Session:
                 # once without its reply (the transport reads at most about 4 KB per iteration)
                 ops.append(['peerq', -1, 'bigsig'])
             ops.append(['close'])
+            ops.append(['closeq'])      # the peer closes; nothing on this side runs yet (then: read without dispatching, timers, dispatch)
         ops.append(['advance', 1500])
         ops.append(['advance', 6000])
         if self.queued:
@@ -225,18 +233,22 @@ class Session:
             self.h.cmd('PEERQ ' + hx)
             resp = self.h.cmd('STATE')
             self.hit('queued-reply')
-        elif kind == 'rw':
-            self.readq = list(self.queued)
-            self.hit('read-without-dispatch')
-            for _ in range(4):      # one call reads at most about 4 KB; everything the peer queued must be in
-                resp = self.h.cmd('RW')
-        elif kind == 'pump':
-            self.process_queue()
-            resp = self.h.cmd('PUMP')
-        elif kind == 'close':
+        elif kind == 'closeq':
+            self.closing = True
+            self.eof_read = False
+            self.hit('peer-closes-unnoticed')
+            resp = self.h.cmd('PEERCLOSE nopump')
+        elif kind in ('close', 'pump', 'advance') and (kind == 'close' or getattr(self, 'closing', False)):
+            if kind == 'advance':
+                self.time += op[1]
+                self.expire()           # due timers fire first -- also while the transport is already gone but messages are undispatched
+                if getattr(self, 'eof_read', False):
+                    self.hit('timer-fires-between-eof-and-dispatch')
             self.process_queue()
             self.connected = False
-            resp = self.h.cmd('PEERCLOSE')
+            self.closing = False
+            self.eof_read = False
+            resp = self.h.cmd('PEERCLOSE' if kind == 'close' else ('PUMP' if kind == 'pump' else 'ADVANCE %d' % op[1]))
             pend = [i for i in self.calls if self.calls[i]['state'] == 'pending']
             for i in pend:
                 self.complete(i, ('disconnect', None))
@@ -252,6 +264,16 @@ class Session:
                     self.calls[i]['outcome'] = None
                 self.hit('resynced-after-known-finding')
             return vs
+        elif kind == 'rw':
+            if getattr(self, 'closing', False):
+                self.eof_read = True
+            self.readq = list(self.queued)
+            self.hit('read-without-dispatch')
+            for _ in range(4):      # one call reads at most about 4 KB; everything the peer queued must be in
+                resp = self.h.cmd('RW')
+        elif kind == 'pump':
+            self.process_queue()
+            resp = self.h.cmd('PUMP')
         elif kind == 'advance':
             self.time += op[1]
             self.expire()             # the application's main loop runs due timeouts, then reads the socket
@@ -320,7 +342,7 @@ class Session:
         cd = getattr(self, 'cdump', '')
         for i, c in self.calls.items():
             cd = re.sub(r'([\[,])%d:' % c['serial'], r'\1c%d:' % i, cd)
-        return repr(rel) + repr(self.queued) + repr(self.readq) + repr(self.connected) + cd
+        return repr(rel) + repr(self.queued) + repr(self.readq) + repr((self.connected, getattr(self, 'closing', False), getattr(self, 'eof_read', False))) + cd
 
     def died(self):
         self.h.close()
